@@ -50,6 +50,58 @@ class _Done(Exception):
         self.matrix = matrix
 
 
+def _numpy():
+    """numpy, when the analysing interpreter has it (the repository's own environment does): used ONLY for its indexing / broadcasting / reshaping
+    semantics on object arrays whose elements are polynomials - numpy never sees a number of geometer, and geometer is never imported"""
+    try:
+        import numpy
+        return numpy
+    except ImportError:  # pragma: no cover
+        return None
+
+
+def _to_np(t: "Table"):
+    np_ = _numpy()
+    arr = np_.empty(t.shape, dtype=object)
+    for k, v in t.data.items():
+        arr[k] = v
+    return arr
+
+
+def _from_np(arr, base=None):
+    if not hasattr(arr, "shape") or arr.shape == ():
+        return arr.item() if hasattr(arr, "item") else arr
+    np_ = _numpy()
+    out = Table(arr.shape, {idx: arr[idx] for idx in np_.ndindex(arr.shape)})
+    out.base = base
+    return out
+
+
+def _int_array(v):
+    """a python / numpy integer array for an index written as a table of integer constants or nested lists of ints, else None"""
+    np_ = _numpy()
+    if isinstance(v, Table):
+        vals = {}
+        for k, x in v.data.items():
+            c = x.t.get((), None) if len(x.t) <= 1 else None
+            if x.is_zero():
+                c = Fraction(0)
+            if c is None or c.denominator != 1 or (len(x.t) == 1 and () not in x.t):
+                return None
+            vals[k] = int(c)
+        arr = np_.empty(v.shape, dtype=int)
+        for k, c in vals.items():
+            arr[k] = c
+        return arr
+    if isinstance(v, list):
+        try:
+            arr = np_.array(v)
+        except Exception:  # noqa: BLE001
+            return None
+        return arr if arr.dtype.kind == "i" else None
+    return None
+
+
 class Table:
     """an array of fixed shape whose entries are Laurent polynomials"""
 
@@ -111,15 +163,62 @@ class Table:
                 out = Table((len(parts),) + parts[0].shape, {(i,) + k: v for i, p_ in enumerate(parts) for k, v in p_.data.items()})
                 return out
             raise Unknown("ragged selection")
-        pos, shape = self.positions(idx)
+        try:
+            pos, shape = self.positions(idx)
+        except Unknown:
+            return self._np_get(idx)
         if shape == ():
             return self.data[pos[0]]
         out = Table(shape, dict(zip(itertools.product(*[range(n) for n in shape]), (self.data[p] for p in pos))))
         out.base = self.base if self.base is not None else self  # numpy hands out a VIEW for basic indexing: a write into it is a write into the base
         return out
 
+    def _np_index(self, idx):
+        np_ = _numpy()
+        if np_ is None:
+            raise Unknown("index kind")
+        idx = idx if isinstance(idx, tuple) else (idx,)
+        out = []
+        advanced = False
+        for i in idx:
+            if i is None or i is Ellipsis or isinstance(i, slice) or (isinstance(i, int) and not isinstance(i, bool)):
+                out.append(i)
+                continue
+            arr = _int_array(i)
+            if arr is None:
+                raise Unknown("index kind")
+            advanced = True
+            out.append(arr)
+        return tuple(out), advanced
+
+    def _np_get(self, idx):
+        idx_np, advanced = self._np_index(idx)
+        try:
+            res = _to_np(self)[idx_np]
+        except (IndexError, ValueError) as ex:
+            raise Unknown(f"index: {ex}") from None
+        # basic indexing hands out a view of the base, advanced indexing a copy
+        return _from_np(res, base=None if advanced else (self.base if self.base is not None else self))
+
     def set(self, idx, value, op=None) -> None:
-        pos, shape = self.positions(idx)
+        try:
+            pos, shape = self.positions(idx)
+        except Unknown:
+            idx_np, _adv = self._np_index(idx)
+            arr = _to_np(self)
+            val = _to_np(value) if isinstance(value, Table) else value
+            if not isinstance(value, (Table, LP)):
+                raise Unknown("stored value is not a table") from None
+            try:
+                if op is None:
+                    arr[idx_np] = val
+                else:
+                    cur = arr[idx_np]
+                    arr[idx_np] = _numpy().frompyfunc(op, 2, 1)(cur, val)
+            except (IndexError, ValueError) as ex:
+                raise Unknown(f"assignment: {ex}") from None
+            self.data = {k: arr[k] for k in self.data}
+            return
         if isinstance(value, Table):
             if value.shape == shape:
                 vals = [value.data[i] for i in itertools.product(*[range(n) for n in shape])]
@@ -151,6 +250,12 @@ def _binop(op, a, b):
             return Table(a.shape, {k: op(v, b.data[(k[-1],)]) for k, v in a.data.items()})
         if len(a.shape) == 1 and b.shape[-1] == a.shape[0]:
             return Table(b.shape, {k: op(a.data[(k[-1],)], v) for k, v in b.data.items()})
+        np_ = _numpy()
+        if np_ is not None:
+            try:
+                return _from_np(np_.frompyfunc(op, 2, 1)(_to_np(a), _to_np(b)))
+            except ValueError:
+                pass
     raise Unknown("operands do not broadcast")
 
 
@@ -186,6 +291,8 @@ def _dot(a, b):
     raise Unknown("dot of these shapes")
 
 
+STRUCTURAL = {"diagonal", "delete", "transpose", "expand_dims", "squeeze", "take_along_axis", "flip", "roll", "indices", "moveaxis", "tile", "repeat", "ravel",
+              "atleast_1d", "atleast_2d", "broadcast_to", "triu_indices", "tril_indices"}
 POINT_CLASSES = {"PointTensor", "Point", "PointLikeTensor", "Tensor", "ProjectiveTensor", "BoundTensor"}
 
 
@@ -453,6 +560,7 @@ class Interp:
         self.trig = False  # read cos / sin / norm as atoms with their relations (rotation matrices)
         self.heights: set[str] = set()  # atoms that stand for the height of a cone
         self.ratio_mode = False  # keep quotients with a sum in the denominator as Ratio objects
+        self.generic = False  # decide == / != between polynomials for inputs in general position
         self.kinds: dict[str, set[str]] = {}  # class names a PointSym parameter is an instance of (for isinstance tests)
         self.rules: dict = {}  # atom -> (power, value): atom**power rewrites to value (norms, cos^2 = 1 - sin^2)
         self.hooks: dict = {}  # function name -> callable(args, kwargs) used instead of interpreting the call
@@ -497,6 +605,10 @@ class Interp:
                 return {ast.Add: l + r, ast.Sub: l - r, ast.Mult: l * r}[type(e.op)]
             if isinstance(l, int) and isinstance(r, int) and not isinstance(l, bool) and not isinstance(r, bool) and isinstance(e.op, ast.Div) and r != 0:
                 return LP.const(Fraction(l, r))
+            if isinstance(l, int) and isinstance(r, int) and not isinstance(l, bool) and not isinstance(r, bool) and isinstance(e.op, (ast.FloorDiv, ast.Mod)) and r != 0:
+                return l // r if isinstance(e.op, ast.FloorDiv) else l % r
+            if isinstance(l, (tuple, list)) and isinstance(r, (tuple, list)) and isinstance(e.op, ast.Add):
+                return type(l)(list(l) + list(r)) if type(l) is type(r) else tuple(list(l) + list(r))
             if isinstance(e.op, ast.Pow):
                 if isinstance(r, int) and not isinstance(r, bool):
                     base = self.num(l)
@@ -599,6 +711,10 @@ class Interp:
                 return LP.sym("s")
             if isinstance(base, (tuple, list)) and isinstance(idx, int):
                 return base[idx] if -len(base) <= idx < len(base) else Opaque("index out of range")
+            if isinstance(base, (tuple, list)) and isinstance(idx, slice):
+                return base[idx]
+            if isinstance(base, LP) and (idx is None or idx == (Ellipsis, None) or idx == (None,)):
+                return Table((1,), {(0,): base})  # a 0-d value with a new axis
             return Opaque("subscript")
         if isinstance(e, ast.Call):
             return self.call(e, env)
@@ -614,6 +730,10 @@ class Interp:
                 table = {ast.Eq: l == r, ast.NotEq: l != r, ast.Lt: l < r, ast.LtE: l <= r, ast.Gt: l > r, ast.GtE: l >= r}
                 if type(op) in table:
                     return table[type(op)]
+            if self.generic and isinstance(op, (ast.Eq, ast.NotEq)) and isinstance(l, (LP, int)) and isinstance(r, (LP, int)) and not isinstance(l, bool) and not isinstance(r, bool):
+                # generic position: two polynomials are equal only if they are the same polynomial
+                same_ = zero_mod(self.lp(l) - self.lp(r), self.rules)
+                return same_ if isinstance(op, ast.Eq) else not same_
             return Opaque("comparison")
         if isinstance(e, ast.Compare):
             return Opaque("comparison")
@@ -621,7 +741,16 @@ class Interp:
 
     def index(self, s: ast.expr, env: dict):
         if isinstance(s, ast.Tuple):
-            return tuple(self.index(x, env) for x in s.elts)
+            out_: list = []
+            for x in s.elts:
+                if isinstance(x, ast.Starred):
+                    sv = self.ev(x.value, env)
+                    if not isinstance(sv, (tuple, list)):
+                        raise Unknown("star in an index")
+                    out_ += list(sv)
+                else:
+                    out_.append(self.index(x, env))
+            return tuple(out_)
         if isinstance(s, ast.Slice):
             def part(x):
                 if x is None:
@@ -632,7 +761,9 @@ class Interp:
                 raise Unknown("slice bound")
             return slice(part(s.lower), part(s.upper), part(s.step))
         v = self.ev(s, env)
-        if isinstance(v, tuple) and all(isinstance(x, (int, list)) for x in v):
+        if isinstance(v, tuple) and all(x is None or x is Ellipsis or isinstance(x, (int, list, slice, Table)) for x in v):
+            return v
+        if v is None or isinstance(v, (Table, slice)):
             return v
         if isinstance(v, (int, list)) or v is Ellipsis:
             return v
@@ -743,6 +874,12 @@ class Interp:
                 for x in v.data.values():
                     inner = inner + x * x
                 return self.sqrt_atom(inner.rewrite(self.rules))
+        if name in ("sqrt", "csqrt") and len(e.args) == 1 and self.trig and not self.ratio_mode:
+            v = self.ev(e.args[0], env)
+            if isinstance(v, LP):
+                return self.sqrt_atom(v.rewrite(self.rules))
+            if isinstance(v, Table):
+                return Table(v.shape, {k_: self.sqrt_atom(x_.rewrite(self.rules)) for k_, x_ in v.data.items()})
         if name == "arctan2" and len(e.args) == 2 and self.trig:
             return AngleSym(self.lp(self.ev(e.args[0], env)), self.lp(self.ev(e.args[1], env)))
         if name in ("arcsin", "arccos") and len(e.args) == 1 and self.trig:
@@ -762,6 +899,15 @@ class Interp:
             if isinstance(v, (Table, list)):
                 return False
         if is_np or isinstance(f, ast.Name):
+            if name == "sqrt" and len(e.args) == 1 and isinstance(e.args[0], (ast.BinOp, ast.Constant, ast.Name)):
+                try:
+                    v0 = self.ev(e.args[0], env)
+                except (Unknown, NotPolynomial):
+                    v0 = None
+                if isinstance(v0, int) and not isinstance(v0, bool) and v0 >= 0:
+                    import math as _m
+                    r_ = _m.isqrt(v0)
+                    return r_ if r_ * r_ == v0 else Opaque("irrational square root")
             if name in ("eye", "identity") and e.args:
                 n = self.ev(e.args[0], env)
                 if isinstance(n, int):
@@ -864,7 +1010,12 @@ class Interp:
                 if isinstance(v, int) and not isinstance(v, bool) and 0 <= v <= 8:
                     return list(range(v))
             if name in ("float", "int") and len(e.args) == 1:
-                return self.ev(e.args[0], env)
+                v = self.ev(e.args[0], env)
+                if isinstance(v, LP) and len(v.t) <= 1 and (not v.t or () in v.t) and name == "int":
+                    c_ = v.t.get((), Fraction(0))
+                    return int(c_)
+                return v
+
             if name == "range" and len(e.args) == 1:
                 v = self.ev(e.args[0], env)
                 if isinstance(v, int) and not isinstance(v, bool):
@@ -927,6 +1078,34 @@ class Interp:
                 ax = sorted(self.ev(x, env) for x in e.args[1:])
                 if isinstance(v, Table) and len(v.shape) == 2 and ax in ([-2, -1], [0, 1]):
                     return Table((v.shape[1], v.shape[0]), {(j, i): x for (i, j), x in v.data.items()})
+            if name in STRUCTURAL and e.args and _numpy() is not None:
+                out_ = self.structural(name, e, env)
+                if out_ is not None:
+                    return out_
+            if name in ("tuple", "list") and len(e.args) == 1 and isinstance(f, ast.Name):
+                v = self.ev(e.args[0], env)
+                if isinstance(v, (tuple, list, range)):
+                    return tuple(v) if name == "tuple" else list(v)
+            if name == "combinations" and len(e.args) == 2:
+                it_, r_ = self.ev(e.args[0], env), self.ev(e.args[1], env)
+                if isinstance(it_, (list, range, tuple)) and isinstance(r_, int) and len(it_) <= 6:
+                    return [tuple(c_) for c_ in itertools.combinations(list(it_), r_)]
+            if name == "slice":
+                vals_ = [self.ev(a_, env) for a_ in e.args]
+                if all(v_ is None or (isinstance(v_, int) and not isinstance(v_, bool)) for v_ in vals_):
+                    return slice(*vals_)
+            if name == "where" and len(e.args) == 3:
+                c_ = self.ev(e.args[0], env)
+                if isinstance(c_, bool):
+                    return self.ev(e.args[1] if c_ else e.args[2], env)
+            if name == "unravel_index" and len(e.args) == 2:
+                flat, shp = self.ev(e.args[0], env), self.ev(e.args[1], env)
+                if isinstance(flat, int) and isinstance(shp, (tuple, list)) and all(isinstance(x_, int) for x_ in shp):
+                    out_ = []
+                    for d_ in reversed(shp):
+                        out_.append(flat % d_)
+                        flat //= d_
+                    return tuple(reversed(out_))
             if name == "isinstance" and len(e.args) == 2:
                 v = self.ev(e.args[0], env)
                 names_ = [x.id for x in (e.args[1].elts if isinstance(e.args[1], ast.Tuple) else [e.args[1]]) if isinstance(x, ast.Name)]
@@ -941,6 +1120,14 @@ class Interp:
                     return v
             if name in ("stack", "vstack") and e.args:
                 v = self.ev(e.args[0], env)
+                if isinstance(v, list) and v and all(isinstance(x, list) for x in v) and _numpy() is not None:
+                    try:
+                        arrs = [_numpy().array(x) for x in v]
+                        if all(a_.dtype.kind == "i" for a_ in arrs):
+                            axis_ = next((self.ev(k_.value, env) for k_ in e.keywords if k_.arg == "axis"), 0)
+                            return _numpy().stack(arrs, axis=axis_).tolist()
+                    except (ValueError, TypeError):
+                        pass
                 axis = 0
                 for k_ in e.keywords:
                     if k_.arg == "axis":
@@ -967,8 +1154,10 @@ class Interp:
         if name in ("det", "adjugate") and len(e.args) == 1:
             v = self.ev(e.args[0], env)
             t = _stack_rows([self.num(x) for x in v]) if isinstance(v, list) else self.num(v)
-            if isinstance(t, Table) and len(t.shape) == 3 and name == "det":
-                return Table((t.shape[0],), {(i,): _det_table(t.get(i)) for i in range(t.shape[0])})
+            if isinstance(t, Table) and len(t.shape) >= 3 and name == "det":
+                lead = t.shape[:-2]
+                return Table(lead, {idx_: _det_table(Table(t.shape[-2:], {(i, j): t.data[idx_ + (i, j)] for i in range(t.shape[-2]) for j in range(t.shape[-1])}))
+                                    for idx_ in itertools.product(*[range(n_) for n_ in lead])})
             if isinstance(t, Table) and len(t.shape) == 3 and name == "adjugate":
                 parts = [_adjugate_table(t.get(i)) for i in range(t.shape[0])]
                 return Table((len(parts),) + parts[0].shape, {(i,) + k_: x_ for i, p_ in enumerate(parts) for k_, x_ in p_.data.items()})
@@ -1002,6 +1191,11 @@ class Interp:
                 return Table((1, v.shape[0]), {(0, i): v.data[(i,)] for i in range(v.shape[0])})
             if isinstance(v, Table) and shp == v.shape:
                 return v
+            if isinstance(v, Table) and _numpy() is not None and all(isinstance(x_, int) for x_ in shp):
+                try:
+                    return _from_np(_to_np(v).reshape(shp), base=v.base if v.base is not None else v)
+                except ValueError:
+                    pass
         if isinstance(f, ast.Attribute) and name == "copy" and not e.args:
             v = self.ev(f.value, env)
             return v.copy() if isinstance(v, Table) else v
@@ -1024,6 +1218,41 @@ class Interp:
                 return atom  # the distance of the two points: an atom h with h^2 = |a - b|^2
         return Opaque(f"call {name}")
 
+    def structural(self, name: str, e: ast.Call, env: dict):
+        """numpy functions that only MOVE elements (no arithmetic): applied by numpy itself to the object array of polynomials / to integer index arrays"""
+        np_ = _numpy()
+        args = [self.ev(a_, env) for a_ in e.args]
+        kw = {k_.arg: self.ev(k_.value, env) for k_ in e.keywords if k_.arg}
+
+        def conv(v):
+            if isinstance(v, Table):
+                return _to_np(v)
+            if isinstance(v, (list, tuple)) and v and all(isinstance(x, Table) for x in v):
+                return [_to_np(x) for x in v]
+            if isinstance(v, (int, tuple, list, range)) or v is None:
+                return list(v) if isinstance(v, range) else v
+            raise Unknown("argument of a structural numpy function")
+        try:
+            a_np = [conv(v) for v in args]
+            kw_np = {k_: conv(v) for k_, v in kw.items()}
+            if name == "indices":
+                res = np_.indices(*a_np, **kw_np)
+                if res.size == 0:
+                    return ()  # np.indices(()): nothing to enumerate, tuple(...) of it is empty
+                return res.tolist()
+            res = getattr(np_, name)(*a_np, **kw_np)
+        except Unknown:
+            return None
+        except Exception as ex:  # noqa: BLE001
+            raise Unknown(f"np.{name}: {ex}") from None
+        if isinstance(res, np_.ndarray) and res.dtype == object:
+            return _from_np(res)
+        if isinstance(res, np_.ndarray) and res.dtype.kind == "i":
+            return res.tolist()
+        if isinstance(res, tuple) and all(isinstance(x, np_.ndarray) and x.dtype.kind == "i" for x in res):
+            return tuple(x.tolist() for x in res)
+        return None
+
     def run_method(self, m: FunctionInfo, recv, args: list, kwargs: dict):
         m = self.prog.body_of(m)
         names = [x.arg for x in m.node.args.args]
@@ -1034,7 +1263,7 @@ class Interp:
         sub = Interp(self.prog, self.cls, self.assume)
         sub.depth = self.depth + 1
         sub.infinite, sub.quadric_ctors = self.infinite, self.quadric_ctors
-        sub.trig, sub.rules, sub.hooks, sub.heights, sub.ratio_mode = self.trig, self.rules, self.hooks, self.heights, self.ratio_mode
+        sub.trig, sub.rules, sub.hooks, sub.heights, sub.ratio_mode, sub.generic = self.trig, self.rules, self.hooks, self.heights, self.ratio_mode, self.generic
         try:
             sub.block(m.node.body, env2)
         except _Done as d:
@@ -1045,6 +1274,8 @@ class Interp:
 
     def sqrt_atom(self, inner: LP) -> LP:
         """sqrt(inner), the principal (non-negative) root, as an atom with the relation atom^2 = inner"""
+        if inner.is_zero():
+            return LP()
         if len(inner.t) == 1 and () in inner.t:
             c = inner.t[()]
             for k in range(0, 13):
@@ -1128,7 +1359,7 @@ class Interp:
         sub = Interp(self.prog, self.cls, self.assume)
         sub.depth = self.depth + 1
         sub.infinite, sub.quadric_ctors = self.infinite, self.quadric_ctors
-        sub.trig, sub.rules, sub.hooks, sub.heights = self.trig, self.rules, self.hooks, self.heights
+        sub.trig, sub.rules, sub.hooks, sub.heights, sub.generic = self.trig, self.rules, self.hooks, self.heights, self.generic
         try:
             sub.block(helper.node.body, env2)
         except _Done as d:
@@ -1922,4 +2153,97 @@ def rule_simplex_volume(run: Run, prog: Program) -> int:
                         f"the radicand of the Cayley-Menger expression is not {what}" + (f": it is {ratio} times that" if ratio is not None else ""), fn.loc)
         else:
             run.add("E19.simplex", fn.short, label, UNDECIDED, f"the returned value is not read as a square root ({getattr(got, 'why', type(got).__name__)[:80]})", fn.loc)
+    return n_ob
+
+
+# ---------------------------------------------------------------------------------------------- components of a pair of hyperplanes (C15)
+def _proportional_vec(u: Table, v: list, rules: dict) -> bool:
+    n = len(v)
+    if u.shape != (n,):
+        return False
+    if all(zero_mod(u.data[(i,)], rules) for i in range(n)):
+        return False
+    return all(zero_mod(u.data[(i,)] * v[j] - u.data[(j,)] * v[i], rules) for i in range(n) for j in range(i + 1, n))
+
+
+def rule_components(run: Run, prog: Program) -> int:
+    run.rule("E19.comp", "QuadricTensor.components of the matrix g h^T + h g^T of two symbolic hyperplanes (lines of the plane, planes of 3-space), interpreted for "
+                         "every pivot the two argmax calls can select and for both signs of every square root of a perfect square: the two returned coefficient "
+                         "vectors are multiples of g and h")
+    cls = prog.find_cls("QuadricTensor")
+    fn = prog.lookup(cls, "components") if cls else None
+    if fn is None:
+        run.add("E19.comp", "QuadricTensor.components", "pair of hyperplanes", UNDECIDED, "components not found", "")
+        return 0
+    fn = prog.body_of(fn)
+    n_ob = 0
+    for dim in (2, 3):
+        n = dim + 1
+        label = f"two {'lines of the plane' if dim == 2 else 'planes of 3-space'}"
+        g = [LP.sym(f"g{i}") for i in range(n)]
+        h = [LP.sym(f"h{i}") for i in range(n)]
+        m = Table.full((n, n), lambda idx: g[idx[0]] * h[idx[1]] + h[idx[0]] * g[idx[1]])
+        plucker = [g[a] * h[b] - g[b] * h[a] for a in range(n) for b in range(a + 1, n)]
+        n_ob += 1
+        cases = failures = unread = 0
+        first_fail = first_unread = None
+        # how many pivots the first argmax can choose from is not known before the code is read: try indices until one is out of range
+        for pivot in range(n * (n - 1) // 2 if dim == 3 else n):
+            if failures >= 40:
+                break  # enough evidence; the count in the report is a lower bound
+            for flat in range(n * n):
+                picks = [pivot, flat]
+
+                def argmax(_a, _k, picks=picks):
+                    return picks.pop(0) if picks else Opaque("a third argmax")
+                me = ObjSym(cls, array=m.copy(), shape=(n, n), dim=dim, is_dual=False, free_indices=0)
+                it = Interp(prog, cls, {})
+                it.trig = True
+                it.generic = True
+                it.hooks = {"argmax": argmax, "is_multiple": lambda a_, k_: True, "from_array": lambda a_, k_: a_[-1]}
+                try:
+                    got = it.run_method(fn, me, [], {})
+                except (Unknown, NotPolynomial, RecursionError, IndexError) as ex:
+                    unread += 1
+                    first_unread = first_unread or str(ex)[:90]
+                    continue
+                if not (isinstance(got, list) and len(got) == 2 and all(isinstance(x, Table) and x.shape == (n,) for x in got)):
+                    unread += 1
+                    first_unread = first_unread or f"the returned value is not a pair of coefficient vectors ({getattr(got, 'why', type(got).__name__)[:60]})"
+                    continue
+                # the square roots of perfect squares: both signs occur
+                roots_ = []
+                for atom, (pw, val) in it.rules.items():
+                    if pw == 2 and atom.startswith("sqrt("):
+                        s_ = next((c for c in plucker if (c * c - val).is_zero()), None)
+                        if s_ is None:
+                            roots_ = None
+                            break
+                        roots_.append((atom, s_))
+                if roots_ is None or len(roots_) > 6:
+                    unread += 1
+                    first_unread = first_unread or "a square root whose radicand is not the square of a Pluecker coordinate"
+                    continue
+                for signs in itertools.product((1, -1), repeat=len(roots_)):
+                    rules = dict(it.rules)
+                    for (atom, s_), sg in zip(roots_, signs):
+                        rules[atom] = (1, s_ * LP.const(sg))
+                    p_, q_ = got
+                    # a pivot that is zero for this sign pattern cannot have been chosen by argmax
+                    if all(zero_mod(x, rules) for x in p_.data.values()) and all(zero_mod(x, rules) for x in q_.data.values()):
+                        continue
+                    cases += 1
+                    ok = (_proportional_vec(p_, g, rules) and _proportional_vec(q_, h, rules)) or (_proportional_vec(p_, h, rules) and _proportional_vec(q_, g, rules))
+                    if not ok:
+                        failures += 1
+                        first_fail = first_fail or (f"pivot {pivot}, largest entry at {divmod(flat, n)}, signs of the roots {signs}: the returned vectors are not multiples of g and h")
+        loc = fn.loc
+        if failures:
+            run.add("E19.comp", fn.short, label, VIOLATION,
+                    f"{failures} of the first {cases} cases (pivot x position of the largest entry x signs of the square roots) do not return the two hyperplanes, e.g. {first_fail}. "
+                    f"A square root of a perfect square is the ABSOLUTE value of its root: signs taken from several such roots are inconsistent", loc)
+        elif cases and not unread:
+            run.add("E19.comp", fn.short, label, PROVEN, f"{cases} cases: the two returned coefficient vectors are multiples of g and h", loc)
+        else:
+            run.add("E19.comp", fn.short, label, UNDECIDED, f"{unread} case(s) not read ({first_unread}); {cases} decided", loc)
     return n_ob
